@@ -8,6 +8,7 @@ from __future__ import annotations
 import contextlib
 import itertools
 import logging
+import math
 
 import numpy as np
 
@@ -37,6 +38,9 @@ def show(v):
     if v.__class__.__name__ == "FactoryManager":
         return f"FactoryManager@{id(v) % 10007}"
     return v
+
+
+SERIALS, MANAGERS = {}, []
 
 
 class Boom(Exception):
@@ -71,7 +75,17 @@ class SettingsMonitor:
             def __enter__(self):
                 ctx = mon.ctx
                 self.before = dict(vars(self.s))
-                r = self.cm.__enter__()
+                try:
+                    r = self.cm.__enter__()
+                except BaseException as ex:
+                    # a context that refuses to be entered is never left: whatever it had applied by then stays for good
+                    after = dict(vars(self.s))
+                    ctx.hit("event:entry refused")
+                    ctx.evaluated()
+                    for a, v in self.before.items():
+                        if not (after.get(a) is v):
+                            ctx.violation("a context whose entry was refused left a setting changed", {"key": a, "named": sorted(self.named), "error": repr(ex)[:120]}, show(v), show(after.get(a)))
+                    raise
                 if probe.busy:
                     return r
                 inside = dict(vars(self.s))
@@ -128,18 +142,26 @@ class SettingsMonitor:
 def values(fl, rnd, key, fresh):
     if key == "float_type":
         return rnd.choice([np.float64, np.float32, np.float16])
+    odd = rnd.random() < 0.06  # values a stricter library might refuse: they are either applied and restored, or refused whole
     if key == "decimals":
-        return rnd.randrange(0, 10)
+        return rnd.choice([-1, 2.5, 400]) if odd else rnd.randrange(0, 10)
     if key == "atol":
-        return rnd.choice([1e-3, 1e-6, 0.5, 0.0, 1e-12])
+        return rnd.choice([-1e-3, math.nan]) if odd else rnd.choice([1e-3, 1e-6, 0.5, 0.0, 1e-12])
     if key == "rtol":
-        return rnd.choice([0.0, 1e-5, 0.25])
+        return rnd.choice([-1.0, math.nan]) if odd else rnd.choice([0.0, 1e-5, 0.25])
     if key == "alias":
         return rnd.choice(["fl", "", "*", "fuzzy", "f2"])
     if key == "logger":
         return logging.getLogger(f"vf.c20.{rnd.randrange(4)}") if not fresh else logging.Logger(f"vf.fresh.{rnd.randrange(10**6)}")
     if key == "factory_manager":
-        return fl.FactoryManager()
+        # every manager of the workload registers its own marked term class under one name, so that whoever builds a term tells
+        # which manager it asked
+        fm = fl.FactoryManager()
+        serial = len(SERIALS) + 1
+        fm.term.constructors["Marker"] = type("Marker", (fl.Constant,), {"serial": serial})
+        SERIALS[id(fm)] = serial
+        MANAGERS.append(fm)
+        return fm
     raise KeyError(key)
 
 
@@ -186,12 +208,21 @@ def describe(prog):
 class Runner:
     def __init__(self, ctx, fl):
         self.ctx, self.fl, self.s = ctx, fl, fl.settings
+        self.old_importer = fl.FllImporter()
 
     def probe_helpers(self, model):
         """formatting and comparison helpers must follow the *current* (model) values"""
         ctx, fl = self.ctx, self.fl
         ctx.evaluated()
         d = model["decimals"]
+        if not (isinstance(d, int) and 0 <= d <= 20 and model["atol"] >= 0 and model["rtol"] >= 0):
+            # odd values are only required to be applied and restored; the helpers' behaviour under them is not specified
+            ctx.hit("probe:skipped under an odd value")
+            for k in KEYS:
+                real = vars(self.s)[ATTR[k]]
+                if not same(real, model[k]) and not (isinstance(real, float) and isinstance(model[k], float) and real != real and model[k] != model[k]):
+                    ctx.violation("settings differ from the stack model", {"key": k}, show(model[k]), show(real))
+            return
         got = fl.Op.str(1.0 / 3.0)
         exp = f"{1.0 / 3.0:.{d}f}"
         ctx.hit("probe:Op.str")
@@ -236,6 +267,17 @@ class Runner:
             real = vars(self.s)[ATTR[k]]
             if not same(real, model[k]):
                 ctx.violation("settings differ from the stack model", {"key": k}, show(model[k]), show(real))
+        # the factory manager is observed through those who build from it: an importer made just now and one made long before
+        exp = SERIALS.get(id(model["factory_manager"]))
+        # (not while the default manager is still to be made: asking for it would make it, and the probe must not change what it watches)
+        for label, imp in () if model["factory_manager"] is None else (("created now", fl.FllImporter()), ("created before any context", self.old_importer)):
+            try:
+                got = getattr(type(imp.term("term: m Marker 1.000")), "serial", "unmarked")
+            except Exception:
+                got = None
+            ctx.hit("probe:importer builds from the current factory manager")
+            if got != exp:
+                ctx.violation("the FLL importer does not build from the current factory manager", {"importer": label}, exp, got)
 
     def execute(self, prog, model):
         for st in prog:
@@ -277,6 +319,9 @@ class Runner:
                     self.ctx.hit("exception_crossed_a_context" if isinstance(ex, Boom) else "base_exception_crossed_a_context")
                     if not catch:
                         raise
+                except (ValueError, TypeError):
+                    # the library refused the values of this context: it was never entered, the settings are as before
+                    self.ctx.hit("event:context refused by the library")
                 self.probe_helpers(model)
             elif st[0] == "assign":
                 setattr(self.s, st[1], st[2])
